@@ -2,6 +2,7 @@ import Driver.Util
 import Driver.Port
 import Driver.Middleware
 import Driver.Pure
+import Driver.Lifecycle
 
 /-! One request per line on stdin, one response per line on stdout.  Unknown or malformed
 requests answer `bad-op` (never a default value). -/
@@ -12,6 +13,7 @@ def dispatch (ws : List String) : String :=
   | "mw" :: _ | "mwspec" :: _ | "c15holds" :: _ => (Driver.Middleware.handle ws).getD "bad-op"
   | "equal" :: _ | "c13holds" :: _ | "member" :: _ | "c11memberholds" :: _ | "iscancel" :: _ | "plan" :: _
   | "planany" :: _ | "c16planholds" :: _ | "known" :: _ => (Driver.Pure.handle ws).getD "bad-op"
+  | "lcaccept" :: _ | "c07holds" :: _ => (Driver.Lifecycle.handle ws).getD "bad-op"
   | _ => "bad-op"
 
 partial def loop (h : IO.FS.Stream) (out : IO.FS.Stream) : IO Unit := do
